@@ -7,14 +7,14 @@ from hypothesis import strategies as st
 from pyref import ec, ecdsa, adaptor as A
 from vf import gens
 from vf.core import Test
-from vf.lib import buf
+from vf.lib import buf, NONCEFN_ADAPTOR
 
 RULE = ("cases: (a) pipelines encrypt -> verify -> decrypt -> ecdsa_verify -> recover (from the signature and its n-s twin) over edge-biased signing / decryption keys "
         "(1, n-1, ...), messages incl. 0 and >= n, nonce source in {NULL, exported default, +-aux, Python callback +-aux, callback with chosen (edge) nonces, callback failing "
-        "on the first / on the DLEQ call}, plus recovery from unrelated / other-r / other-s / s=0 / r=0 signatures and wrong or negated encryption keys, decryption with "
+        "on the first / on the DLEQ call}, plus recovery from unrelated / other-r / other-s / s=0 / r=0 signatures, the endomorphism twists (r, +-s*lambda^j) and lambda^j*(+-Y), and wrong or negated encryption keys, decryption with "
         "zero / out-of-range / foreign keys; (b) 162-byte candidates: library-made, reference-made with chosen nonces, with chosen small s' (message solved for; gives the "
         "s'+n twin), with R chosen by x-coordinate (x = n, x in [n,p), tiny x; encryption key solved for), then mutated: bit flips, every scalar field -> 0/n/n+1/2^256-1/"
-        "v+n/n-v/v+-1, points -> negation / off-curve / other on-curve x / x >= p / prefix byte, R<->R' swap, other or negated key, message bit flip / +-n alias; verdict of "
+        "v+n/n-v/v+-1, points -> negation / endomorphism images (beta^j x, +-y) / off-curve / other on-curve x / x >= p / prefix byte, scalars * +-lambda^j, R<->R' swap, other / negated / lambda-multiplied key, message bit flip / +-n alias; verdict of "
         "adaptor_verify == pyref.adaptor.verify for every candidate; (c) ALL 1296 single-bit flips of sampled signatures, each decided by the reference; (d) builds with a group "
         "of order 13 / 199: honest signature verifies, decrypts and recovers, re-encodings s'+k*order and s_dleq+k*order are rejected (the challenge e is reduced by design and "
         "not asserted).  non-trivial = boundary key / message, non-default nonce source, or a candidate that is not an unmodified library signature")
@@ -25,8 +25,20 @@ ASSUMPTIONS = ["pyref.adaptor is a correct reading of the DLC specification and 
 
 N, P = ec.N, ec.P
 M256 = gens.M256
-NONCEFN_ADAPTOR = ctypes.CFUNCTYPE(c_int, c_void_p, c_void_p, c_void_p, c_void_p, c_void_p, c_size_t, c_void_p)
 ZERO162 = bytes(162)
+LAM, BETA = ec.LAMBDA, ec.BETA        # lambda*(x, y) = (beta*x, y); lambda^3 = 1 mod n, beta^3 = 1 mod p
+
+
+def lam_scalar(v, j, negate=False):
+    """v * lambda^j mod n (j = 1, 2; lambda^-1 = lambda^2), optionally negated: the 'algebraically related wrong values' of a scalar."""
+    w = v * pow(LAM, j, N) % N
+    return (N - w) % N if negate else w
+
+
+def beta_point(pt, j, negate=False):
+    """lambda^j * pt = (beta^j * x, y), optionally negated: same y^2, different x."""
+    q = (pt[0] * pow(BETA, j, P) % P, pt[1])
+    return ec.neg(q) if negate else q
 
 
 # ------------------------------------------------------------------ ctypes helpers
@@ -106,7 +118,7 @@ def edge_key(v):
 
 
 # ------------------------------------------------------------------ decrypt / recover oracle for a VALID adaptor signature
-def check_decrypt_recover(env, b, X, msg32, Y, y, classes, extra=None):
+def check_decrypt_recover(env, b, X, msg32, Y, y, classes, extra=None, lam=0):
     """b passes the reference verification for (X, msg32, Y) and y*G == Y."""
     lib = env.lib
     Xpk, Ypk = lib.pubkey_from_point(X), lib.pubkey_from_point(Y)
@@ -123,7 +135,11 @@ def check_decrypt_recover(env, b, X, msg32, Y, y, classes, extra=None):
     rr, got = lib_recover(env, twin, b, Ypk)
     env.require(rr == 1 and got == y, "recover from the negated-s twin does not return the decryption key", ret=rr, got="%064x" % got)
     classes.append("recover_twin")
-    for kind, a in (extra or []):
+    # algebraically related wrong values (endomorphism images): signatures (r, +-s*lambda^j) make s^-1 s' = +-lambda^-j y, whose point has the same y^2 as Y but
+    # another x; encryption keys lambda^j (+-Y) likewise.  The specification compares the points: refuse.
+    j, ng = 1 + (lam & 1), bool(lam & 2)
+    extra = list(extra or []) + [("lambda_s", (j, ng)), ("enckey_lambda", (j, ng)), ("lambda_s", (3 - j, not ng))]
+    for kind, a in extra:
         # signature variants
         rv, sv, Yv = r, s, Y
         if kind == "unrelated":
@@ -151,12 +167,20 @@ def check_decrypt_recover(env, b, X, msg32, Y, y, classes, extra=None):
             Yv = ec.mulg((y + 1 + a) % N or 1)
         elif kind == "enckey_neg_twin":
             Yv, sv = ec.neg(Y), N - s
+        elif kind == "lambda_s":
+            sv = lam_scalar(s, a[0], a[1])
+        elif kind == "enckey_lambda":
+            Yv = beta_point(Y, a[0], a[1])
         so = sig_obj(env, rv, sv)
         if so is None:
             continue
         exp = A.recover(b, rv, sv, Yv)
         rr, got = lib_recover(env, so, b, lib.pubkey_from_point(Yv))
         classes.append("rec:" + kind)
+        if kind in ("lambda_s", "enckey_lambda"):
+            classes.append("recover:lambda_twist" if kind == "lambda_s" else "recover:lambda_enckey")
+            if exp is not None:
+                raise RuntimeError("oracle inconsistency: reference recover accepts an endomorphism twist")
         env.require((rr == 1) == (exp is not None), "recover verdict %d for a %s signature / key, specification says %s" % (rr, kind, "accept" if exp is not None else "refuse"),
                     r="%064x" % rv, s="%064x" % sv)
         if rr == 1:
@@ -263,7 +287,8 @@ def run_pipeline(env, case):
     X2 = ec.mulg(case["x2"])
     m_flip = ec.i2b(msg_int ^ (1 << case["mbit"]))
     variants = [("other_pubkey", X2, msg32, Y), ("swap_keys", Y, msg32, X), ("msg_flip", X, m_flip, Y), ("enckey_neg", X, msg32, ec.neg(Y)),
-                ("pubkey_neg", ec.neg(X), msg32, Y)]
+                ("pubkey_neg", ec.neg(X), msg32, Y), ("pubkey_lambda", beta_point(X, 1 + case["mbit"] % 2, bool(case["mbit"] & 2)), msg32, Y),
+                ("enckey_lambda", X, msg32, beta_point(Y, 1 + case["mbit"] % 2, bool(case["mbit"] & 4)))]
     mi = ec.b2i(msg32)
     if mi + N <= M256:
         variants.append(("msg_plus_n", X, ec.i2b(mi + N), Y))
@@ -276,7 +301,7 @@ def run_pipeline(env, case):
         classes.append("ctx:%s:%d" % (name, got))
 
     # ---- decryption, ECDSA verification, recovery
-    check_decrypt_recover(env, b, X, msg32, Y, y, classes, case["rec"])
+    check_decrypt_recover(env, b, X, msg32, Y, y, classes, case["rec"], lam=case["mbit"])
     d2 = case["deckey2"]
     rd, sig2 = lib_decrypt(env, ec.i2b(d2), b)
     if d2 == 0:
@@ -362,12 +387,12 @@ def build_base(env, case):
 
 
 SCALAR_OFF = {"sp": 66, "e": 98, "sd": 130}
-SCALAR_SUBS = ["zero", "n", "n_plus_1", "max", "plus_n", "negate", "inc", "dec", "one", "n_minus_1"]
-POINT_SUBS = ["neg", "offcurve", "other_oncurve", "x_ge_p", "prefix"]
+SCALAR_SUBS = ["zero", "n", "n_plus_1", "max", "plus_n", "negate", "inc", "dec", "one", "n_minus_1", "lambda", "neg_lambda"]
+POINT_SUBS = ["neg", "offcurve", "other_oncurve", "x_ge_p", "prefix", "beta", "neg_beta"]
 FLAT_MUTS = (["bitflip"] * 12 + ["scalar:%s:%s" % (f, sub) for f in ("sp", "e", "sd") for sub in SCALAR_SUBS]
              + ["scalar:sp:zero", "scalar:sp:n", "scalar:sp:plus_n", "scalar:sp:plus_n", "scalar:sd:n", "scalar:sd:plus_n", "scalar:sd:zero", "scalar:e:zero"] * 2
              + ["point:%s:%s" % (f, sub) for f in ("R", "Rp") for sub in POINT_SUBS] * 2 + ["swap_points"] * 2
-             + ["ctx_X:" + x for x in ("other", "neg", "swap")] + ["ctx_Y:" + x for x in ("other", "neg", "swap")]
+             + ["ctx_X:" + x for x in ("other", "neg", "swap", "lambda", "neg_lambda")] + ["ctx_Y:" + x for x in ("other", "neg", "swap", "lambda", "neg_lambda")]
              + ["ctx_msg:" + x for x in ("flip", "plus_n", "minus_n", "other")] * 2)
 
 
@@ -417,6 +442,11 @@ def mutate_point33(f, sub, a):
         f[1:] = ec.i2b(x + P if x + P <= M256 else [P, P + 1, M256, P + 7][a % 4])
     elif sub == "prefix":
         f[0] = [0, 1, 4, 5, 6, 7, 0x82, 0xFF][a % 8]
+    elif sub in ("beta", "neg_beta"):
+        # endomorphism image (beta^j x, +-y): a valid point with the same y^2 (only meaningful while x < p; otherwise the string stays unparseable)
+        f[1:] = ec.i2b(x * pow(BETA, 1 + a % 2, P) % P if x < P else x)
+        if sub == "neg_beta":
+            f[0] ^= 1
     return bytes(f)
 
 
@@ -442,6 +472,9 @@ def run_string(env, case):
             sub = mu["sub"]
             new = {"zero": 0, "n": N, "n_plus_1": N + 1, "max": M256, "negate": (N - v) % N, "inc": (v + 1) & M256, "dec": (v - 1) & M256, "one": 1,
                    "n_minus_1": N - 1}.get(sub)
+            if sub in ("lambda", "neg_lambda"):
+                new = lam_scalar(v, 1 + a % 2, sub == "neg_lambda")
+                classes.append("verify:lambda_scalar")
             if sub == "plus_n":
                 if v + N <= M256:
                     new = v + N
@@ -454,17 +487,23 @@ def run_string(env, case):
         elif k == "point":
             off = 0 if mu["field"] == "R" else 33
             b[off:off + 33] = mutate_point33(bytes(b[off:off + 33]), mu["sub"], a)
+            if mu["sub"] in ("beta", "neg_beta"):
+                classes.append("verify:beta_point")
             sig_mut = True
             tag = "point:%s:%s" % (mu["field"], mu["sub"])
         elif k == "swap_points":
             b[0:33], b[33:66] = b[33:66], b[0:33]
             sig_mut = True
         elif k == "ctx_X":
-            Xv = {"other": ec.mulg(a + 2), "neg": ec.neg(Xv), "swap": Yv}[mu["sub"]]
+            Xv = {"other": ec.mulg(a + 2), "neg": ec.neg(Xv), "swap": Yv, "lambda": beta_point(Xv, 1 + a % 2), "neg_lambda": beta_point(Xv, 1 + a % 2, True)}[mu["sub"]]
+            if "lambda" in mu["sub"]:
+                classes.append("verify:lambda_key")
             ctx_mut = True
             tag += ":" + mu["sub"]
         elif k == "ctx_Y":
-            Yv = {"other": ec.mulg(a + 2), "neg": ec.neg(Yv), "swap": Xv}[mu["sub"]]
+            Yv = {"other": ec.mulg(a + 2), "neg": ec.neg(Yv), "swap": Xv, "lambda": beta_point(Yv, 1 + a % 2), "neg_lambda": beta_point(Yv, 1 + a % 2, True)}[mu["sub"]]
+            if "lambda" in mu["sub"]:
+                classes.append("verify:lambda_key")
             ctx_mut = True
             tag += ":" + mu["sub"]
         elif k == "ctx_msg":
@@ -495,7 +534,7 @@ def run_string(env, case):
     if got and (sig_mut or ctx_mut):
         classes.append("accept_after_mutation")
     if got and y is not None and Yv == Y:
-        check_decrypt_recover(env, b, Xv, mv, Y, y, classes, [("s_zero", 0), ("other_r", case["k"] & 0xFFFF)])
+        check_decrypt_recover(env, b, Xv, mv, Y, y, classes, [("s_zero", 0), ("other_r", case["k"] & 0xFFFF)], lam=case["k2"] & 3)
     elif not got:
         # robustness of decrypt / recover on strings that were NOT verified: no crash, no callback; only the soundness direction is asserted
         rd, sig = lib_decrypt(env, ec.i2b(case["y"]), b)
@@ -633,11 +672,12 @@ def run_small(env, case):
 SMALL = {"quick": ["small13", "small199"], "thorough": ["small13", "small199"]}
 TESTS = [
     Test("pipeline", pipeline_case, run_pipeline, quick=700, thorough=12000, max_workers=4,
-         must_cover=["nonce:" + k for k in sorted(set(NONCE_KINDS))] + ["msg_ge_n", "recover_twin", "rec:s_zero", "rec:unrelated", "rec:other_r", "rec:enckey_neg",
+         must_cover=["nonce:" + k for k in sorted(set(NONCE_KINDS))] + ["msg_ge_n", "recover_twin", "rec:s_zero", "rec:unrelated", "rec:other_r", "rec:enckey_neg", "recover:lambda_twist", "recover:lambda_enckey", "ctx:pubkey_lambda:0", "ctx:enckey_lambda:0",
                                                                           "bad_seckey", "fixed_no_sig", "ref_encrypt_match", "ctx:msg_plus_n:1", "deckey_zero", "deckey_foreign"]),
     Test("verify_strings", string_case, run_string, quick=3000, thorough=120000, max_workers=5,
          must_cover=["base:lib", "base:ref", "base:ref_sp", "base:ref_rx", "rx:r_zero", "rx:x_ge_n", "sp_plus_n_twin", "accept", "reject", "msg_alias",
-                     "mut:scalar:sp:zero", "mut:scalar:sd:n", "mut:point:R:neg", "mut:point:Rp:neg", "mut:point:R:x_ge_p", "mut:point:Rp:prefix", "rec:s_zero"]),
+                     "mut:scalar:sp:zero", "mut:scalar:sd:n", "mut:point:R:neg", "mut:point:Rp:neg", "mut:point:R:x_ge_p", "mut:point:Rp:prefix", "rec:s_zero", "verify:beta_point", "verify:lambda_scalar", "verify:lambda_key",
+                     "recover:lambda_twist", "recover:lambda_enckey", "mut:point:R:beta", "mut:point:Rp:neg_beta", "mut:scalar:sp:lambda", "mut:scalar:sd:neg_lambda"]),
     Test("bitflips", sweep_enum, run_sweep, kind="enum", cfgs={"quick": ["prod"], "thorough": ["prod", "vsan"]}, must_cover=["swept"]),
     Test("small_group", small_case, run_small, quick=1200, thorough=40000, cfgs=SMALL, max_workers=2, must_cover=["honest_verified", "sp_reenc", "sd_reenc", "sp_reenc:max"]),
 ]
